@@ -63,6 +63,7 @@ class Exchange:
         self.bets = {}  # bet_id -> dict
         self.next_id = 7000
         self.async_ = False
+        self.published = None  # state of the table when the stream last published it
 
     def _new(self, ref, side, price, size, selection_id, handicap):
         self.next_id += 1
@@ -134,7 +135,11 @@ class Exchange:
         b["lapsed"] = round(b["lapsed"] + self.remaining(b), 2)
         b["status"] = "EXECUTION_COMPLETE"
 
+    def state(self):
+        return sorted((b["bet_id"], b["matched"], b["cancelled"], b["lapsed"], b["status"]) for b in self.bets.values())
+
     def snapshot(self):
+        self.published = self.state()
         return [cm.current_order(b["ref"], b["bet_id"], selection_id=b["selection_id"], handicap=b["handicap"], side=b["side"], price=b["price"],
                                  size=b["size"], status=b["status"], size_matched=b["matched"], size_remaining=self.remaining(b),
                                  average_price_matched=b["price"] if b["matched"] else 0.0, size_cancelled=b["cancelled"], size_lapsed=b["lapsed"])
@@ -155,12 +160,12 @@ def _agree(c, fl, ex, market, strategy, tag):
         o = cands[0]
         # (a replacement order carries its own local reference: the exchange keeps the replaced bet's reference for the new
         # bet, flumine resolves it through the bet id - so references are not compared)
-        c.ob("%s.bet-%s.size-matched" % (tag, bid[-1]), o.size_matched == b["matched"], local=o.size_matched, exchange=b["matched"])
-        c.ob("%s.bet-%s.size-remaining" % (tag, bid[-1]), o.size_remaining == ex.remaining(b), local=o.size_remaining, exchange=ex.remaining(b))
+        c.ob("%s.bet-%s.size-matched" % (tag, bid[-1]), o.size_matched == b["matched"], local=o.size_matched, exchange=b["matched"], replacement_bet=(bid != min(ex.bets)))
+        c.ob("%s.bet-%s.size-remaining" % (tag, bid[-1]), o.size_remaining == ex.remaining(b), local=o.size_remaining, exchange=ex.remaining(b), replacement_bet=(bid != min(ex.bets)))
         done = b["status"] == "EXECUTION_COMPLETE"
         # (known finding F18 is specific to the coincidence 'amount cancelled == what then remains at the exchange')
         c.ob("%s.bet-%s.completeness" % (tag, bid[-1]), o.complete == done, local=o.status.name, exchange=b["status"],
-             cancelled_equals_remainder=(b["cancelled"] > 0 and b["cancelled"] == ex.remaining(b)))
+             cancelled_equals_remainder=(b["cancelled"] > 0 and b["cancelled"] == ex.remaining(b)), replacement_bet=(bid != min(ex.bets)))
         if done:
             c.ob("%s.bet-%s.left-live-list" % (tag, bid[-1]), o not in market.blotter._live_orders)
     for t in market.blotter._trades:
@@ -232,8 +237,14 @@ def h11a(c, K=3, async_place=False):
         with c.guard("quiescence"):
             while pool.pending:
                 pool.run_one()
-            for _ in range(2):
-                fl._process_current_orders(cm.current_orders_event(client, ex.snapshot()))
+            if ex.published != ex.state():
+                # the stream publishes a market's orders when something changed at the exchange since it last did
+                for _ in range(2):  # (twice: duplicates are harmless)
+                    fl._process_current_orders(cm.current_orders_event(client, ex.snapshot()))
+            else:
+                # nothing changed since the last publication: the stream stays silent, flumine has what it will ever get
+                c.cover("latest-snapshot-processed-before-the-last-response")
+                c.tag("stream_silent_at_the_end", True)
         _agree(c, fl, ex, market, strategy, "quiescent")
         if len(ex.bets) > 1:
             c.cover("replaced-bet")
